@@ -87,6 +87,24 @@ def main(tier, seed):
                 nviol += 1
                 if nviol <= 3:
                     rep.violation("tie-free supervised training (%s): %s" % (metric, msg), it.desc(), key="resub:sup")
+            if not msg and not nan_self and stats["sup"] % 2 == 0:
+                # the same tie-free distances as a pre-computed matrix (attribute or file), the training rows scattered in a
+                # larger matrix through index arrays, predicted back through their indexes
+                it2 = Instance("tiefree-matrix", None, it.labels, it.D, 0, 0, None)
+                try:
+                    opf2, st2 = impl_fit(it2)
+                    preds2, _ = impl_predict(opf2, it2, rows=list(range(it2.n)))
+                    stats["sup_matrix"] = stats.get("sup_matrix", 0) + 1
+                    if st2["plabel"] != it.labels or preds2 != it.labels:
+                        q = [i for i in range(it.n) if st2["plabel"][i] != it.labels[i] or preds2[i] != it.labels[i]][0]
+                        msg = "sample %d (label %d) was assigned %d by training and %d when predicted back through its index" % (q, it.labels[q], st2["plabel"][q], preds2[q])
+                except Exception as ex:
+                    msg = "raised %r" % (ex,)
+                if msg:
+                    nviol += 1
+                    if nviol <= 3:
+                        d2 = it2.desc(); d2["metric_of_the_matrix"] = metric
+                        rep.violation("tie-free supervised training on a pre-computed matrix with index arrays: " + msg, d2, key="resub:sup")
     bad = supcheck.corr(rep, "correspondence Model/Sup.sup_fit vs SupervisedOPF.fit on tie-free instances of every eligible metric", "C04", terms, expect, insts)
     rep.corr["sup_tie_free"] = dict(cases=len(terms), disagreements=None if bad is None else len(bad), distribution=stats)
     # ---- the classifier `learn` leaves in the object is a supervised training too: on tie-free data it must give its own
